@@ -31,6 +31,16 @@ EXPLANATION = (
 F64_MAX = 1.7976931348623157e308
 
 
+_FLIP = {"Lt": "Gt", "Le": "Ge", "Gt": "Lt", "Ge": "Le", "Eq": "Eq", "Ne": "Ne"}
+
+
+def _norm_fcmp(t):
+    """a float comparison with the constant on the right (`c <= q` is `q >= c`): the orientation it is written in is not behaviour"""
+    if t[2][0] == "c" and t[3][0] != "c" and t[1] in _FLIP:
+        return ("fcmp", _FLIP[t[1]], t[3], t[2])
+    return t
+
+
 def unit_f64(chk, F):
     rule = "C18.R2"
     eng, D = ctx(F)
@@ -48,7 +58,7 @@ def unit_f64(chk, F):
         inst = "<Unit as Mul<f64>>::mul[%s]" % uname
         if st.end != "return":
             continue
-        conds = [(t, s) for t, s in st.opq if isinstance(t, tuple) and t and t[0] == "fcmp"]
+        conds = [(_norm_fcmp(t), s) for t, s in st.opq if isinstance(t, tuple) and t and t[0] == "fcmp"]
         ge = [(t, s) for t, s in conds if t[1] == "Ge" and t[2] == q]
         le = [(t, s) for t, s in conds if t[1] == "Le" and t[2] == q]
         r = st.ret
@@ -207,128 +217,157 @@ def panic_free(chk, F):
 ROUNDERS = ("floor", "round", "trunc", "ceil")
 
 
+def _dep_f2i(eng, lin, seen=None, out=None, depth=0):
+    """float->int conversion terms ("f2i", tree) that a linear form depends on, through uninterpreted atoms and their operands"""
+    if seen is None:
+        seen, out = set(), []
+    if depth > 40:
+        return out
+    by_id = getattr(eng, "_atoms_by_id", None)
+    if by_id is None or len(by_id) != len(eng.atoms):
+        by_id = eng._atoms_by_id = {a.id: a for a in eng.atoms.values()}
+    ft = getattr(eng, "fresh_terms", {})
+
+    def walk(term):
+        if isinstance(term, Lin):
+            _dep_f2i(eng, term, seen, out, depth + 1)
+        elif isinstance(term, tuple):
+            if len(term) == 2 and term[0] == "i" and isinstance(term[1], tuple) and len(term[1]) == 2 and isinstance(term[1][0], tuple):
+                for aid, _c in term[1][0]:
+                    a = by_id.get(aid)
+                    if a is not None:
+                        _dep_f2i(eng, Lin.atom(a), seen, out, depth + 1)
+                return
+            for x in term:
+                walk(x)
+    for a in lin.c:
+        if a.id in seen:
+            continue
+        seen.add(a.id)
+        term = ft.get(a.name) or ft.get(a.name.split(".")[0])
+        if isinstance(term, tuple) and term and term[0] == "f2i":
+            out.append(term)
+            continue
+        if term is not None:
+            walk(term)
+        if isinstance(a.defn, tuple):
+            for x in a.defn:
+                walk(x)
+        elif isinstance(a.defn, Lin):
+            walk(a.defn)
+    return out
+
+
+def _rounded(tree):
+    """(rounding function, operand) of a float tree that is converted to an integer: `as` truncates toward zero"""
+    if tree[0] == "op1" and tree[1] in ROUNDERS:
+        return tree[1], tree[2]
+    return "trunc", tree
+
+
+def _certification(term, truth, X):
+    """If the float comparison (term, truth) on a path certifies that X is within a tolerance of r(X) for a rounding function r:
+    -> (r, tolerance) with tolerance a float (absolute) or ("rel", c) (c*|X|); else None.  Only comparisons that hold are read
+    (the negation of a failed comparison says nothing when an operand is NaN)."""
+    if truth is not True or term[0] != "fcmp":
+        return None
+    op, A, B = term[1], term[2], term[3]
+    if op in ("Ge", "Gt"):
+        A, B = B, A
+    elif op == "Eq":
+        for P, Q in ((A, B), (B, A)):
+            if P[0] == "op1" and P[1] in ROUNDERS and P[2] == X and Q == X:
+                return P[1], 0.0
+        return None
+    elif op not in ("Le", "Lt"):
+        return None
+    if not (A[0] == "op1" and A[1] == "abs" and A[2][0] == "op" and A[2][1] == "Sub"):
+        return None
+    P, Q = A[2][2], A[2][3]
+    r = None
+    for f, x in ((P, Q), (Q, P)):
+        if f[0] == "op1" and f[1] in ROUNDERS and f[2] == X and x == X:
+            r = f[1]
+    if r is None:
+        return None
+    if B[0] == "c":
+        return r, B[1]
+    if B[0] == "op" and B[1] == "Mul":
+        for cst, ab in ((B[2], B[3]), (B[3], B[2])):
+            if cst[0] == "c" and ab == ("op1", "abs", X):
+                return r, ("rel", cst[1])
+    return None
+
+
 def integer_certification(chk, F):
     """Duration * f64 scales the factor by powers of ten until it is `integral`, converts it to an integer and divides back.
-    R4: the integer used must be the integer the integrality test certified (same rounding function on both sides: a test
-    against floor() followed by a truncating `as` cast picks the wrong neighbour for negative values).  R5: an absolute
-    tolerance t in that test lets a non-integral value v with |v - int| < t through; the result is then off by up to
-    |duration| * t, which must stay below 1 ns for the magnitudes of the statement (10 000 years)."""
+    Decided on the paths of the interpreted function (helpers inlined, comparisons in either orientation): R4: on every path the
+    integer the result depends on is r(X) for a float term X, and - unless the path left the search at the precision cap - a
+    comparison that holds on the path certifies |r'(X) - X| <= tolerance for the same X, with r' == r (a test against floor()
+    followed by a truncating `as` cast picks the wrong neighbour for negative values) or tolerance 0.  R5: an absolute tolerance t
+    lets a non-integral value through; the result is then off by up to |duration| * t, which must stay below 1 ns for the
+    magnitudes of the statement (10 000 years); a relative tolerance must be of the order of the machine epsilon."""
+    eng, D = ctx(F)
     fn = F.find1(self_ty="Duration", name="mul", trait_ref="Mul<f64>")
     inst = "<Duration as Mul<f64>>::mul"
-    defs = cfg.unique_defs(fn)
-    calls = {t["dest"]["l"]: (bi, t) for bi, t in cfg.calls(fn) if not t["dest"]["pj"]}
-
-    def call_of(o):
-        """(callee short name, args) if the operand is (a copy of) a call result"""
-        r = cfg.resolve(fn, o, defs)
-        p = cfg.operand_place(o)
-        for _ in range(8):
-            if p is None or p["pj"]:
-                return None
-            if p["l"] in calls:
-                t = calls[p["l"]][1]
-                return cfg.callee_name(t["f"]).split("::")[-1], t["args"]
-            d = defs.get(p["l"])
-            if d is None or d["op"] != "use":
-                return None
-            p = cfg.operand_place(d["x"])
-        return None
-
-    def base_local(o):
-        """the source variable an operand is a copy of: follow copies to a local with several definitions (a loop variable)"""
-        p = cfg.operand_place(o)
-        for _ in range(8):
-            if p is None or p["pj"]:
-                return None
-            d = defs.get(p["l"])
-            if d is None or d["op"] != "use":
-                return p["l"]
-            p = cfg.operand_place(d["x"])
-        return None
-    # conversions float -> i128
-    convs = []
-    for bi, si, st in cfg.stmts(fn):
-        if st["k"] == "a" and st["r"]["op"] == "cast" and st["r"]["ck"] == "FloatToInt":
-            c = call_of(st["r"]["x"])
-            if c is not None and c[0] in ROUNDERS:
-                convs.append((c[0], base_local(c[1][0])))
-            else:
-                convs.append(("trunc", base_local(st["r"]["x"])))  # `as` truncates toward zero
-    # integrality tests: |f(X) - X| < tolerance   or   f(X) == X
-    tests = []
-    for bi, si, st in cfg.stmts(fn):
-        if st["k"] != "a" or st["r"]["op"] != "bin" or st["r"]["b"] not in ("Lt", "Le", "Eq"):
+    tn = F.find1(self_ty="Duration", name="total_nanoseconds", trait="")
+    ft = F.find1(self_ty="Duration", name="from_total_nanoseconds", trait="")
+    eng.hooks_by_id = {tn["id"]: rec_hook(D, "total"), ft["id"]: rec_hook(D, "from_total")}
+    eng.max_steps = 20000
+    finals, args = D.run(fn)
+    eng.hooks_by_id = {}
+    eng.max_steps = 4000
+    nconv = ncert = 0
+    uncertified = []
+    seen_pairs = set()
+    tols = set()
+    for st in finals:
+        if st.end != "return":
             continue
-        l, r = st["r"]["l"], st["r"]["r"]
-        kr = cfg.operand_const(r)
-        if kr is not None and isinstance(kr.get("v"), dict) and "fbits" in kr["v"]:
-            import struct
-            kr = dict(kr, v=struct.unpack("<d", struct.pack("<Q", kr["v"]["fbits"]))[0])
-        rel_tol = None
-        if st["r"]["b"] in ("Lt", "Le") and kr is None:
-            # relative tolerance: c * |X|
-            d2 = cfg.resolve(fn, r, defs)
-            if d2[0] == "rv" and d2[1]["op"] == "bin" and d2[1]["b"] == "Mul":
-                for ca, cb in ((d2[1]["l"], d2[1]["r"]), (d2[1]["r"], d2[1]["l"])):
-                    kc = cfg.operand_const(ca)
-                    ab = call_of(cb)
-                    if kc is not None and isinstance(kc.get("v"), dict) and "fbits" in kc["v"] and ab is not None and ab[0] == "abs":
-                        import struct
-                        rel_tol = (struct.unpack("<d", struct.pack("<Q", kc["v"]["fbits"]))[0], base_local(ab[1][0]))
-        if rel_tol is not None:
-            a = call_of(l)
-            if a is not None and a[0] == "abs":
-                d = cfg.resolve(fn, a[1][0], defs)
-                if d[0] == "rv" and d[1]["op"] == "bin" and d[1]["b"] == "Sub":
-                    f = call_of(d[1]["l"])
-                    g = call_of(d[1]["r"])
-                    if f is not None and f[0] in ROUNDERS and base_local(f[1][0]) == base_local(d[1]["r"]) == rel_tol[1]:
-                        tests.append((f[0], base_local(f[1][0]), ("rel", rel_tol[0])))
-                    elif g is not None and g[0] in ROUNDERS and base_local(g[1][0]) == base_local(d[1]["l"]) == rel_tol[1]:
-                        tests.append((g[0], base_local(g[1][0]), ("rel", rel_tol[0])))
-            continue
-        if st["r"]["b"] in ("Lt", "Le") and kr is not None and isinstance(kr.get("v"), float):
-            a = call_of(l)
-            if a is None or a[0] != "abs":
+        ft_calls = recs(st, "from_total")
+        src = None
+        if ft_calls and isinstance(ft_calls[-1][0][0], Int):
+            src = ft_calls[-1][0][0].lin
+        elif D.total(st.ret) is not None:
+            src = D.total(st.ret)
+        convs = _dep_f2i(eng, src) if src is not None else []
+        if not convs:
+            continue  # constant paths (e.g. q folded) convert nothing
+        for term in convs:
+            nconv += 1
+            cf, X = _rounded(term[1])
+            certs = [c for c in (_certification(t_, s_, X) for t_, s_ in st.opq if isinstance(t_, tuple) and t_ and t_[0] == "fcmp") if c is not None]
+            if not certs:
+                uncertified.append(repr(X)[:120])
                 continue
-            d = cfg.resolve(fn, a[1][0], defs)
-            if d[0] == "rv" and d[1]["op"] == "bin" and d[1]["b"] == "Sub":
-                f = call_of(d[1]["l"])
-                g = call_of(d[1]["r"])
-                if f is not None and f[0] in ROUNDERS and base_local(f[1][0]) == base_local(d[1]["r"]):
-                    tests.append((f[0], base_local(f[1][0]), kr["v"]))
-                elif g is not None and g[0] in ROUNDERS and base_local(g[1][0]) == base_local(d[1]["l"]):
-                    tests.append((g[0], base_local(g[1][0]), kr["v"]))
-        elif st["r"]["b"] == "Eq":
-            f, g = call_of(l), call_of(r)
-            if f is not None and f[0] in ROUNDERS and base_local(f[1][0]) == base_local(r):
-                tests.append((f[0], base_local(f[1][0]), 0.0))
-            elif g is not None and g[0] in ROUNDERS and base_local(g[1][0]) == base_local(l):
-                tests.append((g[0], base_local(g[1][0]), 0.0))
-    chk.floor("C18.R4", "float->integer conversions in Duration * f64", len(convs), 1)
-    chk.floor("C18.R4", "integrality tests in Duration * f64", len(tests), 1)
-    for cf, cv in convs:
-        rel = [t for t in tests if t[1] == cv]
-        if not rel:
-            chk.ob("C18.R4", inst, "converted-value-is-the-tested-value", False, "E5 operand flow", detail={"conversion": cf, "tests": tests})
+            ncert += 1
+            for tf, tol in certs:
+                seen_pairs.add((tf, cf, tol == 0.0))
+                tols.add(tol)
+    chk.floor("C18.R4", "float->integer conversions on the paths of Duration * f64", nconv, 30)
+    chk.floor("C18.R4", "conversions certified by an integrality test that holds on the path", ncert, 30)
+    ok = len(set(uncertified)) <= 1
+    chk.ob("C18.R4", inst, "converted-value-is-the-tested-value", ok, "float comparison terms of the path vs the converted term",
+           detail=None if ok else {"conversions_without_a_certifying_test": sorted(set(uncertified))[:4],
+                                   "meaning": "only the path that leaves the search at the precision cap may convert an uncertified value"})
+    for tf, cf, exact in sorted(seen_pairs):
+        ok = tf == cf or exact
+        chk.ob("C18.R4", inst, "integer-used==integer-certified(test:%s,conversion:%s)" % (tf, cf), ok, "rounding-function agreement",
+               detail=None if ok else "a value within the tolerance of an integer on the side where %s() and %s() differ is converted to the wrong neighbour" % (tf, cf))
+    max_total = 10_000 * 365.25 * 86400e9  # 10 000 years in ns (statement's quantifier)
+    for tol in sorted(tols, key=repr):
+        if isinstance(tol, tuple):
+            # relative tolerance r: the integer differs from the value by at most r*|value|, i.e. the product is off by a relative
+            # r - the float rounding the statement allows as long as r is of the order of the machine epsilon
+            ok5 = tol[1] <= 2 * 2.220446049250313e-16
+            chk.ob("C18.R5", inst, "integrality-tolerance-relative<=2eps", ok5, "error bound (relative tolerance %g)" % tol[1],
+                   detail=None if ok5 else {"relative_tolerance": tol[1]})
             continue
-        for tf, tv, tol in rel:
-            ok = tf == cf or tol == 0.0
-            chk.ob("C18.R4", inst, "integer-used==integer-certified(test:%s,conversion:%s)" % (tf, cf), ok, "rounding-function agreement",
-                   detail=None if ok else "a value within the tolerance of an integer on the side where %s() and %s() differ is converted to the wrong neighbour" % (tf, cf))
-            max_total = 10_000 * 365.25 * 86400e9  # 10 000 years in ns (statement's quantifier)
-            if isinstance(tol, tuple):
-                # relative tolerance r: the integer differs from the value by at most r*|value|, i.e. the product is off by a relative
-                # r - the float rounding the statement allows as long as r is of the order of the machine epsilon
-                ok5 = tol[1] <= 2 * 2.220446049250313e-16
-                chk.ob("C18.R5", inst, "integrality-tolerance-relative<=2eps", ok5, "error bound (relative tolerance %g)" % tol[1],
-                       detail=None if ok5 else {"relative_tolerance": tol[1]})
-                continue
-            err = max_total * tol
-            ok5 = err <= 1.0
-            chk.ob("C18.R5", inst, "integrality-tolerance*|duration|<=1ns", ok5, "error bound (tolerance %g x %.3g ns)" % (tol, max_total),
-                   detail=None if ok5 else {"tolerance": tol, "error_bound_ns": err,
-                                            "meaning": "a factor smaller than the tolerance is certified as the integer 0: the product is lost"})
+        err = max_total * tol
+        ok5 = err <= 1.0
+        chk.ob("C18.R5", inst, "integrality-tolerance*|duration|<=1ns", ok5, "error bound (tolerance %g x %.3g ns)" % (tol, max_total),
+               detail=None if ok5 else {"tolerance": tol, "error_bound_ns": err,
+                                        "meaning": "a factor smaller than the tolerance is certified as the integer 0: the product is lost"})
 
 
 def run(chk, F, tier):
